@@ -291,6 +291,7 @@ def build_edited(ch, rnd, coder=None):
         except Exception:       # noqa – the intermediate chart may be unsound; only the caches matter here
             pass
     done = []
+    _keep = []          # (objects taken out stay alive: ids must not be reused while tmap is in use)
     for op in rnd.sample(['move', 'rename', 'junk', 'move', 'readd', 'rotate'], k=rnd.randint(1, 3)):
         names = [n for n in ch['order'] if n != ch['root']]
         if not names:
@@ -336,6 +337,23 @@ def build_edited(ch, rnd, coder=None):
             src, tgt = t.source, t.target
             srcs = [n for n in ch['order'] if n != src and st[n]['kind'] in ('basic', 'compound', 'orthogonal')]
             if not srcs:
+                continue
+            if rnd.random() < 0.4:
+                # the transition is taken out, declared again on another state and then given its own source: the object that is
+                # registered in the end was added somewhere else
+                t2 = Transition(rnd.choice(srcs), t.target, event=t.event, guard=t.guard, action=t.action, priority=t.priority)
+                t2.preconditions.extend(t.preconditions)
+                t2.postconditions.extend(t.postconditions)
+                t2.invariants.extend(t.invariants)
+                before_ids = {id(x): x for x in sc.transitions}
+                sc.remove_transition(t)
+                gone = [x for i, x in before_ids.items() if i not in {id(y) for y in sc.transitions}][0]     # (t or an equal twin of it)
+                sc.add_transition(t2)
+                tmap[id(t2)] = tmap.pop(id(gone))
+                _keep.append(gone)
+                warm()
+                sc.rotate_transition(t2, new_source=src)
+                done.append(('re-declared elsewhere and rotated home', tmap[id(t2)]))
                 continue
             if rnd.random() < 0.4:
                 warm()
